@@ -7,11 +7,13 @@ META = dict(
           "provenance, migrations, row metadata): EVERY truncation offset; every byte of header+descriptors+keys x "
           "{^0x01,^0x80,=0x00,=0xFF}; arithmetic-aware edits of num_items, file_size, key_start/len, array_start/len (+-1, x2, "
           "0, 2^64-1, +2^32, +2^62, +2^63, wrap-around values making len*type_size overflow back), every type code, descriptor "
-          "swap; 300 random 1-8 byte edits in column data/padding; truncations of the second object of a stream. Loaders: "
+          "swap; 300 random 1-8 byte edits in column data/padding; typed special values (NaNs of either sign and several payloads, "
+          "+-inf, +-0, denormal, max, -1; ids -1, -2, n, n+1, INT_MAX, INT_MIN) in the first/middle/last element of every numeric "
+          "array item incl. sequence_length, cycling through all ten loader forms; truncations of the second object of a stream. Loaders: "
           "tskit.load, TableCollection.load, skip_tables, skip_reference_sequence. Byte offsets are classified by an "
           "independent parse of the layout. Distinct = sha1(file rows, fault class, file size)."),
-    REQUIRED=["loads", "truncations", "structural-edits", "arith-edits", "data-edits", "stream-loads"],
-    ASSUMPTIONS=ASSUME_COMMON + ["a data-region acceptance is judged by the C02 validity predicate plus dump->load identity"],
+    REQUIRED=["loads", "truncations", "structural-edits", "arith-edits", "data-edits", "stream-loads", "typed-edits"],
+    ASSUMPTIONS=ASSUME_COMMON + ["a data-region acceptance is judged by the C02 validity predicate (tskit.load), a positive sequence_length, dump->load->dump identity and equality of the object with its own round trip"],
     BUDGET={"quick": 60.0, "thorough": 1200.0},
     CASE_TIMEOUT={"quick": 240, "thorough": 600},
 )
